@@ -534,10 +534,13 @@ func (g *Gen) applyContract(fr *Frame, st *State, site ssa.Instruction, fc *Func
 				g.contractError(&Clause{Name: "fresh", Src: stp.Type, File: stp.File, Line: stp.Line}, fmt.Errorf("bad type %s", stp.Type))
 				continue
 			}
-			ref := g.newRef(fr.id + "fresh_" + stp.Name)
-			v := Val{T: ref, S: "Int", Ty: ty}
+			var v Val
 			if pt, ok := ty.Underlying().(*types.Pointer); ok {
+				ref := g.newRef(fr.id + "fresh_" + stp.Name)
+				v = Val{T: ref, S: "Int", Ty: ty}
 				g.zeroObject(st, ref, pt.Elem())
+			} else {
+				v = g.freshVal(fr.id+"fresh_"+stp.Name, ty) // an arbitrary value of a non-pointer type
 			}
 			vars[stp.Name] = v
 			env.vars = vars
@@ -572,6 +575,10 @@ func (g *Gen) applyContract(fr *Frame, st *State, site ssa.Instruction, fc *Func
 				}
 				cond = c
 				guard = g.vc.define(fr.id+"ig", "Bool", sAnd(r, c))
+			}
+			if stp.Star {
+				g.invokeStar(fr, st, site, key, fv.Clo, as, r, guard)
+				continue
 			}
 			branch := st
 			if cond != "" {
@@ -704,8 +711,13 @@ func (g *Gen) callSiteClauses(fr *Frame, st *State, site ssa.Instruction, c *ssa
 		if penv == nil {
 			penv = g.bindParams(fr, st, g.lookupContract(key), key, fn, sig, args, c.IsInvoke())
 		}
-		env := g.envFor(fr, st)
+		// caller-side clauses speak about the function under contract: names resolve in its scope, at the call
+		// that (possibly through inlined callees) led here
+		env := g.envFor(top, st)
 		env.pos = site.Pos()
+		if top != fr {
+			env.pos = top.curPos
+		}
 		env.vars = map[string]Val{}
 		for k, v := range penv {
 			env.vars["callee."+k] = v
@@ -1155,5 +1167,66 @@ func (g *Gen) callBinds(fr *Frame, st *State, site ssa.Instruction, c *ssa.CallC
 		}
 		g.seenCall[cl] = true
 		g.setCell(st, "bind$"+cl.Name, v)
+	}
+}
+
+// invokeStar: an assumed higher-order callee invokes the closure any number of times (`invoke*`). The caller's
+// `call <callee> invariant` clauses are loop invariants over those invocations: checked before the first one,
+// assumed in an arbitrary intermediate state (what the closure writes is havocked), checked again after one more
+// invocation with arbitrary admissible arguments; the state after the call is again an arbitrary state that
+// satisfies the invariants. Without invariants nothing is known afterwards about what the closure writes.
+func (g *Gen) invokeStar(fr *Frame, st *State, site ssa.Instruction, key string, clo *Closure, args []Val, r, guard string) {
+	top := fr
+	for top.parent != nil {
+		top = top.parent
+	}
+	var invs []*Clause
+	if top.fc != nil && top == fr { // invariants speak about the function under contract's own call sites, not those of inlined callees
+		for _, cl := range top.fc.CallInvs {
+			if cl.Anchor == key {
+				invs = append(invs, cl)
+			}
+		}
+	}
+	evalInvs := func(s *State) []string {
+		out := make([]string, len(invs))
+		for i, cl := range invs {
+			env := g.envFor(fr, s)
+			env.pos = site.Pos()
+			if top.fn.Pkg != nil {
+				env.pkg = top.fn.Pkg.Pkg
+			}
+			v, err := g.evalBool(cl.Expr, env)
+			if err != nil {
+				g.contractError(cl, fmt.Errorf("at call %s in %s: %v", key, fr.topKey(), err))
+				v = "true"
+			}
+			out[i] = v
+		}
+		return out
+	}
+	name := func(cl *Clause, what string) string {
+		return fmt.Sprintf("%s.call[%s#%d].invariant.%s.%s", fr.topKey(), key, g.siteOrd(cl, site), cl.Name, what)
+	}
+	if g.dry == 0 {
+		for i, v := range evalInvs(st) {
+			g.seenCall[invs[i]] = true
+			g.addObligation(&Obligation{Name: name(invs[i], "entry"), Func: fr.topKey(), Kind: "callinv", Props: invs[i].Props, Guard: r, Goal: v, Src: invs[i].Src, Pos: g.posOf(site)})
+		}
+	}
+	g.havocCaptured(st, clo)
+	for _, v := range evalInvs(st) {
+		g.vc.assume(r, v)
+	}
+	branch := st.Clone()
+	g.invokeClosure(fr, branch, clo, args, guard)
+	if g.dry == 0 {
+		for i, v := range evalInvs(branch) {
+			g.addObligation(&Obligation{Name: name(invs[i], "preserved"), Func: fr.topKey(), Kind: "callinv", Props: invs[i].Props, Guard: guard, Goal: v, Src: invs[i].Src, Pos: g.posOf(site)})
+		}
+		if len(invs) > 0 {
+			g.addObligation(&Obligation{Name: fmt.Sprintf("%s.call[%s#%d].invariant.cover.reachable", fr.topKey(), key, g.siteOrd(invs[0], site)), Func: fr.topKey(), Kind: "cover",
+				Guard: guard, Goal: "false", Expect: "sat", Src: "vacuity guard: the invoked closure runs under the invariants", Pos: g.posOf(site)})
+		}
 	}
 }
